@@ -286,6 +286,25 @@ class Dom(Family):
         if prop_id in ('C05', 'ALL'):
             for i in range(n):
                 yield dict(kind='tree', tree=gen_tree(rng))
+                if i % 15 == 0:
+                    # preambles whose first line, ENCODED, contains the newline bytes at a non-character boundary (line
+                    # endings not declared), and size boundaries: very large indents, a CRLF across byte 65536
+                    import fam_stream
+                    specials = []
+                    for codec, (lf_pair, crlf_triple) in fam_stream.MISALIGNED_FIRST_LINE.items():
+                        specials.append((codec, 'a' + lf_pair + 'b\r\nsecond\r\n', rng.choice([None, 0, 2])))
+                        if crlf_triple:
+                            specials.append((codec, 'a' + crlf_triple + 'b\nsecond\n', rng.choice([None, 0, 2])))
+                    specials += [('utf-8', ' lead\n  two\nx\n', 1025), ('utf-16', ' lead\n  two\nx\n', 1024),
+                                 ('utf-8', 'x' * 65535 + '\r\ntail\r\n', 2), ('utf-8', 'y' * 8191 + '\r\n a\n b\r\n', 2)]
+                    codec, text, ind = specials[(i // 15) % len(specials)]
+                    t = gen_tree(rng)
+                    t['opts']['encoding'] = {'s': codec}
+                    t['pre'] = dict(opts=({} if ind is None else {'indent': {'i': ind}}), content=text)
+                    if t['changes']:
+                        t['changes'][0]['opts'] = {}
+                        t['changes'][0]['pre'] = dict(opts=({} if ind is None else {'indent': {'i': ind}}), content=text)
+                    yield dict(kind='tree', tree=t)
         if prop_id in ('C06', 'ALL'):
             for i in range(n // 2):
                 main, calls = gc.gen_wellformed_calls(rng)
@@ -298,6 +317,15 @@ class Dom(Family):
             for i in range(n // 2):
                 f = gf.gen_file(rng)
                 yield dict(kind='foreign', data=hx(gf.render(f)), file=f)
+            # what an earlier load leaves behind in the process must not change a later one: a tolerated under-indented
+            # short preamble (indent larger than the whole content) first, then the library's own output with that indent
+            for k in (1, 2, 4, 7, 8):
+                short = b'#diffx: encoding=utf-8, version=1.0\n#.preamble: indent=%d, length=%d\n' % (k, min(k, 3)) + \
+                    (b'hi\n' if k >= 3 else b'x\n'[-k:] if k > 1 else b'\n')
+                body = b''.join(b' ' * k + l for l in [b'hello\n', b'  world\n', b'\n', b'end\n'])
+                canon = b'#diffx: encoding=utf-8, version=1.0\n#.preamble: indent=%d, length=%d, line_endings=unix\n' % (k, len(body)) + body
+                yield dict(kind='canonical', data=hx(canon), history=[hx(short)])
+                yield dict(kind='canonical', data=hx(canon), history=[hx(canon), hx(short)])
 
     def _impl(self, c):
         if '_impl' in c:
@@ -322,6 +350,13 @@ class Dom(Family):
                     except Exception as e:
                         res = dict(obs='(ok %s (exc))' % H(b), wrote=b, snap=None, err=type(e).__name__ + ': ' + str(e)[:200])
             else:
+                # histories: files loaded earlier IN THIS PROCESS (the case carries them, so a replay reproduces them)
+                for h in c.get('history', []):
+                    try:
+                        DiffX.from_bytes(unhx(h))
+                    except Exception:
+                        pass
+                rec.table.clear()
                 data = unhx(c['data'])
                 try:
                     d = DiffX.from_bytes(data)
@@ -359,7 +394,7 @@ class Dom(Family):
         return sl.collapse_exc(line)
 
     def key(self, c):
-        return json.dumps(c.get('tree') or c.get('data'), sort_keys=True)
+        return json.dumps([c.get('tree') or c.get('data'), c.get('history')], sort_keys=True)
 
     def bucket(self, c):
         return c['kind']
